@@ -479,14 +479,14 @@ func writeEvidence(prop, tier string, seed uint64, cfg propCfg, m shardResult, d
 		samples = append(samples, v)
 	}
 	cov := map[string]interface{}{
-		"evaluations":         m.Evaluations,
-		"distinct_nontrivial": distinct,
-		"rule":                cfg.Rule,
-		"samples":             samples,
-		"classes":             m.Classes,
+		"evaluations":               m.Evaluations,
+		"distinct_nontrivial":       distinct,
+		"rule":                      cfg.Rule,
+		"samples":                   samples,
+		"classes":                   m.Classes,
 		"replayed_regression_cases": m.Replayed,
-		"shards":              shards,
-		"exhaustive":          false,
+		"shards":                    shards,
+		"exhaustive":                false,
 	}
 	if len(m.Exhaustive) > 0 {
 		cov["exhaustive_parts"] = m.Exhaustive
